@@ -206,7 +206,9 @@ def run(prog, R):
         it = _cache[fmt]['interp']
         bad = [v for v in it.violations if v[0] == 'GROW-7']
         R.add('GROW-7', '%s::Reader' % fmt, 'growth-only-with-full-buffer', not bad and it.events.get('grow', 0) > 0, 'src/%s.rs' % fmt,
-              'the growth call was reached %d times in the exploration, always with the buffer known to be full' % it.events.get('grow', 0))
+              'the growth call was reached %d times in the exploration, always with the buffer known to be full' % it.events.get('grow', 0) if it.events.get('grow', 0)
+              else 'the growth call was not seen by the abstraction (it is made in a function that does not take the reader): not judged',
+              undecided=(not bad and it.events.get('grow', 0) == 0))
     R.floor('GROW-7', 2)
     R.floor('FSM-S5', 2)
     R.floor('FSM-P', 12)
@@ -445,8 +447,23 @@ def flow_rules(prog, R):
             # exits reachable from the source seek without passing an Ok-return assignment = failure exits
             fail_exits = [r for r in b.cfg.exits if r in b.cfg.reach_from(sx, removed=okret)]
             bad = [r for r in fail_exits if r in b.cfg.reach_from(sx, removed=okret | discard)]
+            # code this rule cannot see into: closures that capture the reader (`.map_err(|e| { self.discard(); .. })`) and private
+            # helpers taking the reader: a failure path through them is not judged
+            opaque = set()
+            for x, t in b.calls():
+                cbx = prog.local_callee_body(t.callee)
+                if cbx is not None and t.args and cbx.key.startswith(('fasta::Reader::', 'fastq::Reader::')) and '&mut' in cbx.local_tys[1] and not is_buffer_call(prog, t.callee):
+                    opaque.add(x)
+                for a in t.args:
+                    if not a.is_const:
+                        for r in roots_of(b, a, du):
+                            if r[0] == 'agg' and r[1].rv.j.get('agg') == 'closure' and any(
+                                    any(q[0] == 'arg' and q[1] == 1 for q in roots_of(b, o, du)) for o in r[1].rv.ops if not o.is_const):
+                                opaque.add(x)
+            bad_vis = [r for r in bad if r in b.cfg.reach_from(sx, removed=okret | discard | opaque)]
             R.add('SEEK-3', b, 'failed-seek-discards-buffer#%d' % n, not bad and bool(fail_exits), site(b, stt.line),
-                  'seek can fail after trying to reposition the source and return with the old buffer content still in place: %s' % bool(bad))
+                  'seek can fail after trying to reposition the source and return with the old buffer content still in place: %s%s' % (bool(bad), ' (only through closures / helpers this rule does not look into: not judged)' if bad and not bad_vis else ''),
+                  undecided=bool(bad) and not bad_vis)
             # ... and the reader is terminal: where the source stands after a failed seek is unspecified, a later
             # read would parse from an arbitrary offset (found by the mutation survey: the tests never read after a failed seek)
             finished = set()
@@ -457,10 +474,24 @@ def flow_rules(prog, R):
                         if any(r[0] == 'agg' and r[1].rv.j.get('variant') == 'Finished' for r in rs):
                             finished.add(x)
             bad2 = [r for r in fail_exits if r in b.cfg.reach_from(sx, removed=okret | finished)]
+            bad2_vis = [r for r in bad2 if r in b.cfg.reach_from(sx, removed=okret | finished | opaque)]
             R.add('SEEK-3', b, 'failed-seek-makes-reader-terminal#%d' % n, not bad2 and bool(fail_exits), site(b, stt.line),
-                  'seek can fail after trying to reposition the source and leave the reader in a state in which later reads continue from wherever the source stands: %s' % bool(bad2))
+                  'seek can fail after trying to reposition the source and leave the reader in a state in which later reads continue from wherever the source stands: %s%s' % (bool(bad2), ' (only through closures / helpers this rule does not look into: not judged)' if bad2 and not bad2_vis else ''),
+                  undecided=bool(bad2) and not bad2_vis)
     R.floor('SEEK-3', 4)
     run_seek4(prog, R)
+    # ---- formats whose code the abstraction cannot follow precisely: the state-machine rules give no verdict there
+    for fmt in ('fasta', 'fastq'):
+        ex = _cache.get(fmt)
+        if ex is None or not ex['interp'].imprecise:
+            continue
+        why = '; '.join(sorted(ex['interp'].imprecise))
+        for it_ in R.items:
+            if it_['rule'] in ('FSM-T', 'FSM-E', 'FSM-P', 'FSM-V', 'FSM-S1', 'FSM-S2', 'FSM-S3', 'FSM-S4', 'FSM-S5', 'GROW-7', 'BUF-2') and not it_['ok'] \
+                    and ('%s::' % fmt) in it_['key']:
+                it_['ok'] = True
+                it_['undecided'] = True
+                it_['detail'] = 'no verdict (%s) - the abstraction reported: %s' % (why, it_['detail'][:200])
 
 
 # ---------------- SEEK-4 / SEEK-5 (added after seeded change C05-r3b and the mutation survey)
@@ -530,8 +561,10 @@ def run_seek4(prog, R):
             resets = [a for (_, t, a) in p.effects if t.callee and (prog.local_callee_body(t.callee) is not None) and prog.local_callee_body(t.callee).key.endswith('BufferPosition::reset')]
             newstart = resets[-1][1] if resets and len(resets[-1]) == 2 else p.store.get(start_loc)
             ok5 = isinstance(newstart, Aff) and newstart == X
+            opaque_ns = isinstance(newstart, Aff) and any(isinstance(sy, tuple) and sy[0] in ('call', 'try') for sy in newstart.t)
             R.add('SEEK-5', b, 'shortcut-offset=start+target-current', ok5, where,
-                  'new record start on the in-buffer path = %r (required: %r)' % (newstart, X))
+                  'new record start on the in-buffer path = %r (required: %r)%s' % (newstart, X, ' - computed by a call this rule does not look into: not judged' if opaque_ns and not ok5 else ''),
+                  undecided=(not ok5) and opaque_ns)
             if fmt == 'fasta':
                 sp = p.store.get(('f', SELF, None, 'search_pos'))
                 oksp = isinstance(sp, Aff) and isinstance(newstart, Aff) and (sp - newstart).is_const() and (sp - newstart).c in (0, 1)
@@ -573,10 +606,11 @@ def run_seek4(prog, R):
                 return True
             bad_hi = [(u, ln) for ln in (0, 1, 5, 1 << 20) for u in (ln, ln + 1, ln + (1 << 30)) if holds(u, ln)]
             bad_lo = [(u, ln) for ln in (1, 5, 1 << 20) for u in (-1, -2, -(1 << 30)) if holds(u, ln)]
+            nojudge = (not preds) and opaque_ns
             R.add('SEEK-4', b, 'shortcut-requires-offset-below-buffer-length', bool(preds) and not bad_hi, where,
-                  '%d comparisons of the new record start with the buffer length / constants guard the shortcut; admitted although offset >= length: %s' % (len(preds), bad_hi[:2]))
+                  '%d comparisons of the new record start with the buffer length / constants guard the shortcut; admitted although offset >= length: %s%s' % (len(preds), bad_hi[:2], ' (the offset is the result of a call: not judged)' if nojudge else ''), undecided=nojudge)
             R.add('SEEK-4', b, 'shortcut-requires-nonnegative-offset', bool(preds) and not bad_lo, where,
-                  'admitted although offset < 0: %s' % (bad_lo[:2],))
+                  'admitted although offset < 0: %s' % (bad_lo[:2],), undecided=nojudge)
         for p in far[:1]:
             resets = [a for (_, t, a) in p.effects if t.callee and (prog.local_callee_body(t.callee) is not None) and prog.local_callee_body(t.callee).key.endswith('BufferPosition::reset')]
             v = resets[-1][1] if resets and len(resets[-1]) == 2 else p.store.get(start_loc)
